@@ -72,9 +72,14 @@ class Prop(common.PropertyCheck):
                 x = t.transform_non_affine(s)
                 inv = t.inverted()
                 back = inv.transform_non_affine(x[:-1], mask_out_of_range=False)
+                # the same round trip with the default arguments: every grid point (the end points 0 and M included) has a value
+                bd = inv.transform_non_affine(x[:-1])
+                default_ok = (not np.ma.is_masked(bd)) and bool(np.all(np.isfinite(np.ma.getdata(bd)))) and \
+                    bool(np.allclose(np.ma.getdata(bd), np.asarray(back), rtol=0, atol=1e-12))
                 xs = np.sort(np.concatenate([x[:-1], np.linspace(x[0], x[-2], 300)]))
                 invs = np.asarray(inv.transform_non_affine(xs, mask_out_of_range=False))
                 return {'p': bits(p), 's': [bits(v) for v in s], 'x': [bits(v) for v in x],
+                        'default_inverse_ok': default_ok,
                         'maxerr': float(np.max(np.abs(np.asarray(back) - s[:-1]))), 'inv_mono': bool(np.all(np.diff(invs) >= 0)),
                         'TMW': [float(t.T), float(t.M), float(t.W)]}
             # data-derived parameters
@@ -154,6 +159,8 @@ class Prop(common.PropertyCheck):
                 return 'inverse round trip error %.3g exceeds 1e-4*M (T=%r M=%r W=%r)' % (impl['maxerr'], T, M, W)
             if not impl['inv_mono']:
                 return 'inverse is not non-decreasing'
+            if not impl.get('default_inverse_ok', True):
+                return 'the inverse called with its default arguments returns masked / non-finite / other values on the transform of [0, M] (T=%r M=%r W=%r)' % (case['T'], case['M'], case['W'])
             return None
         # data-derived
         kw = impl['kw']
